@@ -89,8 +89,9 @@ AnmlRun(items) ==
    IN AnmlPass(items, 1, [i \in keep |-> items[i].orig])
 
 (* ------------------------------ the machine ---------------------------- *)
-VARIABLES gkw, wr, touched
-ivars == <<gkw, wr, touched, kw, nm>>
+VARIABLES gkw, wr, touched, fl
+\* fl: the clauses violated by the current naming (computed once per step)
+ivars == <<gkw, wr, touched, fl, kw, nm>>
 NoWriter == [p |-> [lang |-> "none", feats |-> {}, items |-> <<>>], own |-> {}, otn |-> <<>>, nto |-> <<>>, next |-> 0]
 
 \* the names the same problem gets from a first writer in a fresh process
@@ -116,14 +117,14 @@ NamingOf(w) ==
                      [sec |-> "vars", var |-> TRUE, multi |-> FALSE, free |-> FALSE, items |-> AsSeq(V)] >>,
        text |-> <<>>, tback |-> <<>>]
 
-IInit == /\ gkw = KW.general /\ wr = NoWriter /\ touched = 0 /\ DInit
+IInit == /\ gkw = KW.general /\ wr = NoWriter /\ touched = 0 /\ fl = {} /\ DInit
 
 \* PDDLWriter.__init__ of some other problem (before, or while, the observed writer works)
 ITouch(f) ==
    /\ Lang = "pddl" /\ touched < MaxTouch /\ f # {}
    /\ touched' = touched + 1
    /\ gkw' = IF AliasKw THEN gkw \cup Ext(f) ELSE gkw
-   /\ UNCHANGED <<wr, kw, nm>>
+   /\ UNCHANGED <<wr, fl, kw, nm>>
 
 INew(p) ==
    /\ wr.next = 0
@@ -132,6 +133,7 @@ INew(p) ==
             THEN [p |-> p, own |-> KW.general \cup Ext(p.feats), otn |-> <<>>, nto |-> <<>>, next |-> 1]
             ELSE [p |-> p, own |-> KW.anml, otn |-> AnmlRun(p.items), nto |-> <<>>, next |-> Len(p.items) + 1]
    /\ Write(p.lang, p.feats, NamingOf(wr'))
+   /\ fl' = ClausesOf(Failures(kw', nm'))
    /\ UNCHANGED touched
 
 IName ==
@@ -140,18 +142,21 @@ IName ==
           s == PddlStep(wr.p.items, K, wr.next, wr.otn, wr.nto)
       IN wr' = [wr EXCEPT !.otn = s.otn, !.nto = s.nto, !.next = wr.next + 1]
    /\ Write(wr.p.lang, wr.p.feats, NamingOf(wr'))
+   /\ fl' = ClausesOf(Failures(kw', nm'))
    /\ UNCHANGED <<gkw, touched>>
 
-INext == (\E f \in UFeats : ITouch(f)) \/ (\E p \in Problems : INew(p)) \/ IName
+\* (guards hoisted out of the quantifiers: TLC would enumerate Problems in every state)
+INext == \/ (Lang = "pddl" /\ touched < MaxTouch /\ \E f \in UFeats : ITouch(f))
+         \/ (wr.next = 0 /\ \E p \in Problems : INew(p))
+         \/ IName
 ISpec == IInit /\ [][INext]_ivars
 
-Clause(c) == {f \in Failures(kw, nm) : f[1] = c} = {}
-NamedOK == Clause("Named")
-ValidOK == Clause("Valid")
-NotKeywordOK == Clause("NotKeyword")
-DistinctOK == Clause("Distinct")
-InverseOK == Clause("Inverse")
-HistoryIndependentOK == Clause("HistoryIndependent")
+NamedOK == "Named" \notin fl
+ValidOK == "Valid" \notin fl
+NotKeywordOK == "NotKeyword" \notin fl
+DistinctOK == "Distinct" \notin fl
+InverseOK == "Inverse" \notin fl
+HistoryIndependentOK == "HistoryIndependent" \notin fl
 \* the observed writer's keyword set always contains its language fragment's keywords
 KwCovers == wr.next >= 1 /\ wr.p.lang = "pddl" => KwFor("pddl", wr.p.feats) \subseteq (IF AliasKw THEN gkw ELSE wr.own)
 =============================================================================
